@@ -124,3 +124,111 @@ def cross_class_touch(text, cc_hint="DE"):
                 getattr(o, name)
             except Exception:  # noqa: BLE001
                 pass
+
+
+# ---------------------------------------------------------------------------------------------- literals of the source
+_LITS = {}
+_LIT = re.compile(r"[A-Za-z0-9]{3,34}")
+
+
+def literal_dictionary(limit=400):
+    """Alphanumeric literals (3..34 characters, containing a digit or all upper case) of <repo>/schwifty/**/*.py: integer
+    constants and the alphanumeric runs of string constants, docstrings included. The classic fuzzing dictionary: a change
+    that treats one particular bank code, account number or prefix specially has to name it in the source."""
+    root = os.path.join(repo_root(), "schwifty")
+    if root in _LITS:
+        return _LITS[root]
+    found = {}
+    for dirpath, _, files in os.walk(root):
+        for f in sorted(files):
+            if not f.endswith(".py"):
+                continue
+            try:
+                tree = ast.parse(open(os.path.join(dirpath, f), encoding="utf-8").read())
+            except (SyntaxError, OSError):
+                continue
+            for node in ast.walk(tree):
+                if not isinstance(node, ast.Constant) or isinstance(node.value, bool):
+                    continue
+                v = node.value
+                if isinstance(v, int):
+                    words = [str(abs(v))]
+                elif isinstance(v, str):
+                    words = _LIT.findall(v)
+                elif isinstance(v, bytes):
+                    words = _LIT.findall(v.decode("ascii", "ignore"))
+                else:
+                    continue
+                for w in words:
+                    if 3 <= len(w) <= 34 and (any(c.isdigit() for c in w) or w.isupper()):
+                        found[w.upper()] = found.get(w.upper(), 0) + 1
+    # rare literals first: the frequent ones are vocabulary, the rare ones are somebody's special case
+    out = [w for w, _ in sorted(found.items(), key=lambda kv: (kv[1], len(kv[0]), kv[0]))][:limit]
+    _LITS[root] = out
+    return out
+
+
+def literal_countries(o):
+    """Countries of the table whose code is named in the source (in upper case, as a whole string or identifier part)."""
+    root = os.path.join(repo_root(), "schwifty")
+    named = set()
+    for dirpath, _, files in os.walk(root):
+        for f in files:
+            if f.endswith(".py"):
+                try:
+                    named |= set(re.findall(r"(?<![A-Za-z])([A-Z]{2})(?![A-Za-z])", open(os.path.join(dirpath, f), encoding="utf-8").read()))
+                except OSError:
+                    pass
+    return sorted(c for c in named if c in o.table)
+
+
+def literal_fits(lit, classes):
+    """The literal as a value for a field of these classes ('n', 'a', 'c' per position): it is at most as wide as the field and,
+    right-aligned as padding would put it, every character belongs to its position's class."""
+    if not lit or len(lit) > len(classes):
+        return False
+    tail = classes[len(classes) - len(lit):]
+    for ch, k in zip(lit, tail):
+        if k == "n" and not ch.isdigit():
+            return False
+        if k == "a" and not ch.isalpha():
+            return False
+    return True
+
+
+# ---------------------------------------------------------------------------------------------- interpreter configurations
+CONFIGURATIONS = [("python -O", ["-O"], {}), ("python -OO", ["-OO"], {}), ("PYTHONHASHSEED=4711", [], {"PYTHONHASHSEED": "4711"})]
+
+
+def across_configurations(rec, descs, relation="same_in_every_interpreter_configuration"):
+    """The outcome of a call is the same in an interpreter started with -O (assert statements removed), -OO (docstrings removed
+    too) or another hash seed as in this process (differential between configurations of the same tree). descs: vlib.calls
+    descriptors."""
+    import json
+    import subprocess
+    import sys
+    from . import calls
+    here = [calls.outcome(d) for d in descs]
+    script = os.path.join(os.path.dirname(os.path.abspath(__file__)), "engines", "confchild.py")
+    procs = []
+    for name, flags, env_add in CONFIGURATIONS:
+        env = dict(os.environ)
+        env.update(env_add)
+        env["PYTHONDONTWRITEBYTECODE"] = "1"
+        env.pop("PYTHONPYCACHEPREFIX", None)
+        procs.append((name, subprocess.Popen([sys.executable, *flags, script], stdin=subprocess.PIPE, stdout=subprocess.PIPE,
+                                             stderr=subprocess.PIPE, env=env, text=True)))
+    for name, p in procs:
+        out, err = p.communicate(json.dumps(descs), timeout=900)
+        if p.returncode != 0:
+            rec.fail(f"configuration|{name}|child_fails", relation, {"calls": descs[:1], "configuration": name, "origin": "configurations"},
+                     "outcomes", err[-400:])
+            continue
+        there = json.loads(out)
+        for d, a, b in zip(descs, here, there):
+            rec.evals += 1
+            rec.classes["configuration-" + name.replace(" ", "")] += 1
+            if json.loads(json.dumps(a)) != b:
+                rec.fail(f"configuration|{name}|{d['op']}" + (":" + d.get("what", "") if d["op"] == "obj" else ""), relation,
+                         {"calls": [d], "configuration": name, "origin": "configurations"}, a, b)
+    rec.nt.add(hash(json.dumps(descs, sort_keys=True)))
